@@ -33,6 +33,7 @@ TraceOp ==
        [] E.op = "Count"         -> Count(E.t, E.s, E.n)
        [] E.op = "Scan"          -> Scan(E.t, E.s, E.items)
        [] OTHER                  -> FALSE
+TraceFailedCall  == IsEv("OpError") /\ FailedCall(E.t)
 TraceCommitStart == IsEv("CommitStart") /\ CommitStart(E.t)
 TraceCommitEnd   == IsEv("CommitEnd") /\ CommitEnd(E.t, E.ok)
 TraceRollback    == IsEv("Rollback") /\ Rollback(E.t)
@@ -44,7 +45,7 @@ TraceLin         == \E t \in DOMAIN tx : Lin(t) /\ UNCHANGED l
 
 TraceNext == \/ TraceReset \/ TraceBegin \/ TraceArm \/ TraceNewStore \/ TraceOpenStore \/ TraceOp
              \/ TraceCommitStart \/ TraceCommitEnd \/ TraceRollback \/ TraceRemoveStore \/ TraceObserve
-             \/ TraceLin
+             \/ TraceLin \/ TraceFailedCall
 
 TraceSpec == TraceInit /\ [][TraceNext]_tvars
 
